@@ -1,5 +1,5 @@
 """Property -> rule list. Each rule: (id, text, function(ctx, report))."""
-import rules_cmd, rules_expire, rules_conn, rules_auth, rules_tx
+import rules_cmd, rules_expire, rules_conn, rules_auth, rules_tx, rules_db
 from shared import SERVER
 
 
@@ -65,6 +65,14 @@ def _c08():
     ]
 
 
+def _c18():
+    return [
+        ("R-DB", "at every call of a database-taking function on the command path the database operand is never a constant, a function with a database parameter passes it on, and a callee never re-derives a database its caller already determined", rules_db.rule_db),
+        ("R-DB-SELECT", "the connection's selected database is stored only under a dominating index < database_count() test", rules_db.rule_select),
+        ("R-TX-CONN", "queued commands are re-dispatched with the executing connection's identity (SELECT inside MULTI)", rules_tx.rule_tx_conn),
+    ]
+
+
 REGISTRY = {
     "C01": _c01,
     "C02": _c02,
@@ -72,4 +80,5 @@ REGISTRY = {
     "C07": _c07,
     "C08": _c08,
     "C17": _c17,
+    "C18": _c18,
 }
